@@ -744,10 +744,12 @@ def respell_numbers(prs, rnd, share=0.6):
 
     m, n = xsdkit.model(), 0
     numeric = {}
+    stats = respell_numbers.stats
     for part in prs.part.package.iter_parts():
         root = getattr(part, "_element", None)
         if root is None or etree.QName(root).namespace not in (xsdkit.NS["p"], xsdkit.NS["c"]):
             continue
+        chart = etree.QName(root).namespace == xsdkit.NS["c"]
         for el in root.iter():
             if not isinstance(el.tag, str) or not el.attrib:
                 continue
@@ -771,12 +773,29 @@ def respell_numbers(prs, rnd, share=0.6):
                         except LookupError:
                             numeric[k] = False
                     if numeric[k] and xsdkit.type_valid(typ, alt)[0]:
+                        v = int(tx)
+                        um = "%dpt" % (v // 12700) if v % 12700 == 0 else None
+                        pc = None if chart or v % 1000 else "%d%%" % (v // 1000)
+                        for other in (um, pc):  # a universal measure / a percent string where the type is such a union
+                            if other is not None and rnd.random() < 0.5:
+                                kk = (typ, other[-1])
+                                if kk not in numeric:
+                                    try:
+                                        numeric[kk] = xsdkit.type_valid(typ, other)[0]
+                                    except LookupError:
+                                        numeric[kk] = False
+                                if numeric[kk]:
+                                    alt = other
+                                    stats[other[-1]] = stats.get(other[-1], 0) + 1
                         el.set(a, alt)
                         n += 1
                 elif tx in ("true", "false") and typ.endswith("}boolean"):
                     el.set(a, {"true": "1", "false": "0"}[tx])
                     n += 1
     return n
+
+
+respell_numbers.stats = {}
 
 
 def run_corpus_lexical(unit, seed, acc):
@@ -819,6 +838,9 @@ def run_corpus_lexical(unit, seed, acc):
                 continue
             a, b = recs
             acc.count("corpus_lexical:readings_compared", min(len(a), len(b)))
+            for k_, v_ in respell_numbers.stats.items():
+                acc.count("corpus_lexical:respelt_as_%s" % {"t": "universal_measure", "%": "percent_string"}.get(k_, k_), v_)
+            respell_numbers.stats.clear()
             acc.case(desc=("corpus_lexical", label, o), nontrivial=len(a) > 30, cls="corpus-reader")
             for k, (x, y) in enumerate(zip(a, b)):
                 if x != y:
